@@ -27,7 +27,7 @@ TU = os.path.join(ROOT, "translate/c13/layouts.c")
 ROOTS = ["cali_tc_state", "calico_ct_key", "calico_ct_value", "calico_ct_leg", "calico_ct_result",
          "calico_nat", "calico_nat_key", "calico_nat_value", "calico_nat_secondary_key", "calico_nat_dest",
          "calico_nat_affinity_key", "calico_nat_affinity_val", "cali_maglev_key", "ip_set_key",
-         "event_header", "fwd", "cali_rt_key", "cali_rt", "ifstate_val", "failsafe_key", "arp_key", "arp_value"]
+         "event_header", "fwd", "cali_rt_key", "cali_rt", "ifstate_val", "failsafe_key", "arp_key", "arp_value", "cali_ccq_value"]
 
 BUILTIN = {"char": (1, 1), "signed char": (1, 1), "unsigned char": (1, 1), "_Bool": (1, 1), "bool": (1, 1),
            "short": (2, 2), "unsigned short": (2, 2), "int": (4, 4), "unsigned int": (4, 4),
@@ -299,11 +299,16 @@ def emit_version(v, ns, go_rows, b, t):
         sl.append("  (%s, %s, [\n%s])" % (lean_str(r), r, ",\n".join(items)))
     b.append(",\n".join(sl))
     b.append("]\n")
-    b.append("/-- What the Go code uses: (structure, C member path, offset, size, mode).  Offsets/sizes in\nbytes except mode `bit`. -/")
-    b.append("def goRows : List GoRow := [")
-    b.append(",\n".join("  ⟨%s, %s, %d, %d, %s, %s⟩" % (lean_str(r["struct"]), lean_str(r["path"]), r["off"], r["size"],
-                                                      lean_str(r["mode"]), lean_str(r["go"])) for r in go_rows))
-    b.append("]\n")
+    def emit_rows(name, doc, rs):
+        b.append("/-- %s -/" % doc)
+        b.append("def %s : List GoRow := [" % name)
+        b.append(",\n".join("  ⟨%s, %s, %d, %d, %s, %s⟩" % (lean_str(r["struct"]), lean_str(r["path"]), r["off"], r["size"],
+                                                          lean_str(r["mode"]), lean_str(r["go"])) for r in rs))
+        b.append("]\n")
+    strong = [r for r in go_rows if r["mode"] in ("exact", "bit")]
+    weak = [r for r in go_rows if r["mode"] not in ("exact", "bit")]
+    emit_rows("goRows", "Go-side facts checked at FULL strength: same offset AND same size as the C member (mode `exact`; `bit`: bit-field, in bits; path \"\" = total size).  Bytes.", strong)
+    emit_rows("goWeakRows", "Go-side facts for which only LESS than offset+size equality is meaningful or observable: `within` (starts at the member, shorter), `inside` (a chunk of a wider member), `offset` (constant defined but never accessed), `atmost` (one 512-byte map value serves the 464-byte IPv4 and the 512-byte IPv6 state), `mirror-size`.", weak)
     ms = [r["size"] for r in go_rows if r["mode"] == "mirror-size"]
     if ms:
         b.append("/-- `unsafe.Sizeof(state.State{})`: the Go mirror of `struct cali_tc_state`. -/\ndef stateMirrorSize : Nat := %d\n" % ms[0])
@@ -314,10 +319,44 @@ def emit_version(v, ns, go_rows, b, t):
                 be.append("(%s, %s)" % (lean_str(r), lean_str(pth)))
     b.append("/-- Members declared with a big-endian type (`__be16/32/64`). -/")
     b.append("def beFields : List (String × String) := [%s]\n" % ", ".join(be))
-    t.append("/-- Every offset/size the Go code uses equals the C layout (finite table, `decide`). -/")
+    t.append("/-- Every exact row: the Go code uses the same offset and the same size as the C member (finite table). -/")
     t.append("theorem go_matches_c : goRows.all (rowOk structs) = true := by decide +kernel\n")
+    t.append("/-- The weaker rows hold in their weaker sense (see `goWeakRows`). -/")
+    t.append("theorem go_weak_rows_ok : goWeakRows.all (rowOk structs) = true := by decide +kernel\n")
     b.append("end %s\n" % ns)
     t.append("end %s\n" % ns)
+
+
+# Every load/store the policy-program builder does on the per-packet state and on the IP-set key it
+# builds on its stack: (constant, extra byte offset, width in bits) -> (IP version(s), C member path, mode).
+# `exact`: the access covers the whole C member.  `within`: starts at the member, shorter (low byte of a
+# little-endian counter).  `inside`: a chunk of a wider member (64-bit halves of an IPv6 address, 32-bit
+# halves of the packed 64-bit set id, one element of rule_ids[]).  The table is checked against the
+# source: every direct access found there must be classified here and vice versa; accesses through the
+# matchLeg helpers (offsetToStateIPAddressField / offsetToStatePortField, ipOffset/portOffset parameters)
+# are listed by hand for the three constants each helper can return.
+IPC = ["stateOffIPSrc", "stateOffPreNATIPDst", "stateOffPostNATIPDst"]
+PORTC = ["stateOffSrcPort", "stateOffPreNATDstPort", "stateOffPostNATDstPort"]
+DIRECT = {  # found by regex in the source
+    ("stateOffFlags", 64): ("46", "flags", "exact"),
+    ("stateOffPolResult", 32): ("46", "pol_rc", "exact"),
+    ("stateOffRulesHit", 8): ("46", "rules_hit", "within"),
+    ("stateOffIPProto", 8): ("46", "ip_proto", "exact"),
+    ("stateOffICMPType", 8): ("46", "icmp_type", "exact"),
+    # 16-bit load of type+code: the anonymous {icmp_type, icmp_code} pair, i.e. its union sibling dport
+    ("stateOffICMPType", 16): ("46", "dport", "exact"),
+}
+STACK = {  # StoreStackN(reg, keyOffset+ipsKeyX[+v6Adjust][+k])
+    ("ipsKeyPad", 0, 8): ("46", "pad", "exact"),
+    ("ipsKeyPrefix", 0, 32): ("46", "mask", "exact"),
+    ("ipsKeyAddr", 0, 32): ("4", "addr", "exact"),
+    ("ipsKeyAddr", 0, 64): ("6", "addr", "inside"),
+    ("ipsKeyAddr", 8, 64): ("6", "addr", "inside"),
+    ("ipsKeyPort", 0, 16): ("46", "port", "exact"),
+    ("ipsKeyProto", 0, 8): ("46", "protocol", "exact"),
+    ("ipsKeyID", 0, 32): ("46", "set_id", "inside"),
+    ("ipsKeyID", 4, 32): ("46", "set_id", "inside"),
+}
 
 
 def polprog_rows():
@@ -333,33 +372,70 @@ def polprog_rows():
         if not re.fullmatch(r"[\w\s+*()-]+", expr):
             die("unexpected constant expression %r" % expr)
         return int(eval(expr, {"__builtins__": {}}, dict(consts)))
-    rows4, rows6 = [], []
-    n = 0
+    off, field = {}, {}
     for m in re.finditer(r"(stateOff\w+)\s*=\s*asm\.FieldOffset\{Offset:\s*([^,]+),\s*Field:\s*\"state->([\w.]+)\"\}", src):
-        off = ev(m.group(2))
-        for rows in (rows4, rows6):
-            rows.append({"struct": "cali_tc_state", "path": m.group(3), "off": off, "size": 0, "mode": "offset",
-                         "go": "polprog." + m.group(1)})
-        n += 1
-    if n < 10:
-        die("found only %d stateOff constants" % n)
+        off[m.group(1)] = ev(m.group(2))
+        field[m.group(1)] = m.group(3)
+    if len(off) < 10:
+        die("found only %d stateOff constants" % len(off))
     ips = {}
     for m in re.finditer(r"(ipsKey\w+)\s+int16\s*=\s*(\d+)", src):
         ips[m.group(1)] = int(m.group(2))
-    want = {"ipsKeyPrefix": "mask", "ipsKeyID": "set_id", "ipsKeyAddr": "addr", "ipsKeyPort": "port",
-            "ipsKeyProto": "protocol", "ipsKeyPad": "pad"}
-    if set(ips) != set(want):
+    if set(ips) != {"ipsKeyPrefix", "ipsKeyID", "ipsKeyAddr", "ipsKeyPort", "ipsKeyProto", "ipsKeyPad"}:
         die("ipsKey constants changed: %s" % sorted(ips))
     m = re.search(r"v6Adjust\s*=\s*(\d+)", src)
     if not m:
         die("v6Adjust not found")
     adj = int(m.group(1))
-    uses_adj = set(re.findall(r"(ipsKey\w+)\+v6Adjust", src))
-    for k, p in want.items():
-        rows4.append({"struct": "ip_set_key", "path": p, "off": ips[k], "size": 0, "mode": "offset", "go": "polprog." + k})
-        rows6.append({"struct": "ip_set_key", "path": p, "off": ips[k] + (adj if k in uses_adj else 0), "size": 0,
-                      "mode": "offset", "go": "polprog." + k + ("+v6Adjust" if k in uses_adj else "")})
-    return rows4, rows6
+    rows = {"4": [], "6": []}
+
+    def add(vers, st, path, o, bits, mode, what):
+        for v in vers:
+            rows[v].append({"struct": st, "path": path, "off": o, "size": bits // 8, "mode": mode, "go": what})
+    # direct state accesses
+    found = set((c, int(w)) for (_, w, c) in re.findall(r"\.(Load|Store)(8|16|32|64)\([^()]*\b(stateOff\w+)\)", src))
+    if found != set(DIRECT):
+        die("state accesses in pol_prog_builder.go changed: unclassified %s, vanished %s" % (sorted(found - set(DIRECT)), sorted(set(DIRECT) - found)))
+    for (c, w), (vers, path, mode) in DIRECT.items():
+        add(vers, "cali_tc_state", path, off[c], w, mode, "polprog Load/Store%d(%s)" % (w, c))
+    # accesses through the matchLeg helpers
+    for fn, cs in (("offsetToStateIPAddressField", IPC), ("offsetToStatePortField", PORTC)):
+        body = re.search(r"func \(leg matchLeg\) %s\(\).*?\n}" % fn, src, re.S)
+        if not body or set(re.findall(r"stateOff\w+", body.group(0))) != set(cs):
+            die("%s no longer returns exactly %s" % (fn, cs))
+    need = [r"p\.b\.Load32\(asm\.R1, asm\.R9, offset\)", r"offset\.Offset \+= int16\(section \* 4\)",
+            r"p\.b\.Load32\(asm\.R1, asm\.R9, ipOffset\)", r"p\.b\.Load64\(asm\.R1, asm\.R9, ipOffset\)",
+            r"ipOffset\.Offset \+= 8", r"p\.b\.Load16\(asm\.R1, asm\.R9, portOffset\)",
+            r"p\.b\.Load16\(asm\.R1, asm\.R9, leg\.offsetToStatePortField\(\)\)",
+            r"AddImm64\(asm\.R1, int32\(stateOffRuleIDs\.Offset\)\)", r"ShiftLImm64\(asm\.R1, 3\)"]
+    for pat in need:
+        if not re.search(pat, src):
+            die("expected access pattern vanished from pol_prog_builder.go: %s" % pat)
+    for c in IPC:
+        add("4", "cali_tc_state", field[c], off[c], 32, "exact", "polprog Load32(%s) [IPv4 address]" % c)
+        for i, sub in enumerate("abcd"):
+            add("6", "cali_tc_state", field[c] + "." + sub, off[c] + 4 * i, 32, "exact", "polprog Load32(%s+%d) [IPv6 CIDR match]" % (c, 4 * i))
+        for k in (0, 8):
+            add("6", "cali_tc_state", field[c], off[c] + k, 64, "inside", "polprog Load64(%s+%d) [IPv6 IP-set key]" % (c, k))
+    for c in PORTC:
+        add("46", "cali_tc_state", field[c], off[c], 16, "exact", "polprog Load16(%s)" % c)
+    add("46", "cali_tc_state", "rule_ids", off["stateOffRuleIDs"], 64, "inside", "polprog Store64(stateOffRuleIDs + 8*rules_hit)")
+    # IP-set key built on the stack
+    st_found = set()
+    for (w, c, a, k) in re.findall(r"StoreStack(8|16|32|64)\(asm\.R1, keyOffset\+(ipsKey\w+)(\+v6Adjust)?(?:\+(\d+))?\)", src):
+        st_found.add((c, int(k or 0), int(w), bool(a)))
+    if set((c, k, w) for (c, k, w, _) in st_found) != set(STACK):
+        die("IP-set key stores changed: %s" % sorted(st_found))
+    for (c, k, w, a) in sorted(st_found):
+        vers, path, mode = STACK[(c, k, w)]
+        for v in vers:
+            add(v, "ip_set_key", path, ips[c] + k + (adj if (a and v == "6") else 0), w, mode,
+                "polprog StoreStack%d(%s%s%s)" % (w, c, "+v6Adjust" if a else "", "+%d" % k if k else ""))
+    # constants the builder defines but never uses in an access (`_ = stateOffX`): offset only
+    used = set(c for (c, _) in DIRECT) | set(IPC) | set(PORTC) | {"stateOffRuleIDs"}
+    for c in sorted(set(off) - used):
+        add("46", "cali_tc_state", field[c], off[c], 0, "offset", "polprog.%s (defined, never accessed)" % c)
+    return rows["4"], rows["6"]
 
 
 def go_dump():
